@@ -113,6 +113,13 @@ def random_scripts(seed, n, count, steps):
             elif x < 0.85:
                 s.append({"op": "broker", "pk": {"t": "publish", "id": rng.randrange(1, 4), "q": rng.choice([0, 1, 2]), "m": 0}})
                 s.append({"op": "poll"})
+            elif x < 0.89:
+                # a burst from the broker in one go (more than one read batch of the event loop), read by the polls that follow
+                k = rng.choice([9, 10, 11, 12, 21, 25])
+                for j in range(k):
+                    s.append({"op": "broker", "pk": {"t": "publish", "id": j % 50 + 1, "q": rng.choice([0, 1, 1]), "m": 0}})
+                for _ in range(k // 9 + 2):
+                    s.append({"op": "poll"})
             elif x < 0.93:
                 s.append({"op": "poll"})
             else:
